@@ -212,6 +212,8 @@ def modelledSites : List Site := [
   sEvalMod, sEvalUIMod, sEvalDiv, sEvalUIDiv, sEvalIUMod, sEvalIUDiv,
   sVarRefsLessI, sVarRefsLessJ, sVarRefsStrings, sVarRefsSwapI, sVarRefsSwapJ,
   sCloneSourceUnreachable,
+  sMESub0, sMESubLast, sMESubMid,
+  sMRConcat, sMRNames0, sMRRuneI1, sMRRuneI, sMRSub0, sMRVals0, sMRSubTail,
   sReduceDurDiv, sReduceIntMod, sReduceUintMod, sReduceUintDiv,
   sReduceCallVals, sReduceCallArgs
 ]
@@ -224,6 +226,7 @@ def modelledFunctions : List String := [
   "SelectStatement.RewriteRegexConditions", "SelectStatement.RewriteTimeFields",
   "SelectStatement.TimeAscending", "TypeValuerEval.evalCallExprType", "ValuerEval.Eval",
   "ValuerEval.evalBinaryExpr", "VarRefs.Less", "VarRefs.Strings", "VarRefs.Swap", "cloneSource",
+  "matchExactRegex", "matchRegex",
   "reduceBinaryExprDurationLHS", "reduceBinaryExprIntegerLHS", "reduceBinaryExprUnsignedLHS", "reduceCall"
 ]
 
@@ -234,16 +237,15 @@ breaks this obligation until the model has a primitive for it. -/
 theorem gen_modelled_sites :
     sitesAst.filter (fun s => modelledFunctions.contains s.1) = modelledSites := by decide
 
-/-- 43 of the 71 inventoried sites are covered by a checked primitive and a theorem. -/
-theorem gen_modelled_sites_count : modelledSites.length = 43 ∧ sitesAst.length = 71 := by decide
+/-- 53 of the 71 inventoried sites are covered by a checked primitive and a theorem. -/
+theorem gen_modelled_sites_count : modelledSites.length = 53 ∧ sitesAst.length = 71 := by decide
 
-/-- The remaining 28 sites (reviewed list only): `Rewrite` with a caller-supplied `Rewriter`
-(13 assertions), `matchRegex` / `matchExactRegex` on trees of `regexp/syntax` (10),
-`RewriteFields` (2), the protobuf codec of `Sources` (3). -/
+/-- The remaining 18 sites (reviewed list only): `Rewrite` with a caller-supplied `Rewriter`
+(13 assertions), `RewriteFields` (2), the protobuf codec of `Sources` (3). -/
 theorem gen_unmodelled_functions :
     ((sitesAst.filter (fun s => !modelledFunctions.contains s.1)).map (·.1)).eraseDups
-      = ["Rewrite", "SelectStatement.RewriteFields", "Sources.MarshalBinary", "Sources.UnmarshalBinary",
-         "matchExactRegex", "matchRegex"] := by decide
+      = ["Rewrite", "SelectStatement.RewriteFields", "Sources.MarshalBinary", "Sources.UnmarshalBinary"] := by
+  decide
 
 /-! ## `ColumnNames`, `FieldExprByName`, `TimeAscending`, `ExprsToConjunction`, `RewriteTimeFields` -/
 
@@ -349,6 +351,24 @@ theorem rewriteRegexExpr_no_panic (exact : Str → Option (List Str)) (e : Expr)
 theorem rewriteRegexCondition_no_panic (parseRe : Str → Option Rx.Regex) (c : Option Expr) :
     Checked.rewriteRegexCondition (Rx.matchExact parseRe) c = .ok (Rx.rewriteCondition parseRe c) :=
   Checked.rewriteRegexCondition_eq parseRe c
+
+/-- **C13 (matchRegex).** On every tree that satisfies the invariants of `regexp/syntax` output
+(`Regex.wf`: a capture has one sub-expression, a concatenation or alternation at least one, a
+character class an even number of bounds with `lo ≤ hi`; leaves have none) the checked
+`matchRegex` — `re.Sub[0]`, `re.Sub[1:]`, `names[0]`, `vals[0]`, `concat[i*len(vals)+j]`,
+`re.Rune[i]`, `re.Rune[i+1]` — does not panic. The hypothesis is a guarantee of the standard
+library, not of the parser; the harness checks it on every tree it ships (stream `regex.match`). -/
+theorem matchRegex_no_panic (re : Rx.Regex) (hw : re.wf = true) :
+    (Checked.matchRegex re).isPanic = false := Checked.matchRegex_np re hw
+
+/-- **C13 (matchExactRegex).** `re.Sub[0]`, `re.Sub[len(re.Sub)-1]`, `re.Sub[1 : len(re.Sub)-1]` are
+guarded by `len(re.Sub) < 2`; the inner tree handed to `matchRegex` is well-formed again. -/
+theorem matchExactRegex_no_panic (re : Rx.Regex) (hw : re.wf = true) :
+    (Checked.matchExactTree re).isPanic = false := Checked.matchExactTree_np re hw
+
+/-- The hypothesis of `matchRegex_no_panic` is needed: a capture node without sub-expression (never
+built by `regexp/syntax`) makes `re.Sub[0]` panic. -/
+theorem matchRegex_needs_wf : (Checked.matchRegex (.mk .capture 0 [] [])).isPanic = true := by decide
 
 /-! ## `Reduce`, `Eval` -/
 
